@@ -65,6 +65,7 @@ func c13Schedules(s Src, base sim.Config, n int, nranges int, fresh bool) []Run 
 	}
 	rev.ClockStartMs = 8_835_868_800_000
 	rev.Pid = 7
+	rev.HeapBias = 1100 << 20
 	rev.RandSeed = 99
 	rev.Env = map[string]string{"HOME": "/x", "TZ": "Asia/Dhaka"}
 	runs = append(runs, Run{Role: "reverse", Cfg: rev})
@@ -74,6 +75,7 @@ func c13Schedules(s Src, base sim.Config, n int, nranges int, fresh bool) []Run 
 		c = drawClock(s, c, 4)
 		c = drawGC(s, c)
 		c.RandSeed = int64(s.Int("randseed", 0, 1000))
+		c.HeapBias = Pick(s, "heapbias", []uint64{0, 0, 64 << 20, 900 << 20, 1100 << 20, 5 << 30})
 		c.Pid = s.Int("pid", 0, 30000)
 		if Bool(s, "env") {
 			c.Env = map[string]string{"HOME": "/home/u" + fmt.Sprint(s.Int("envn", 0, 9)), "LANG": "bn_BD.UTF-8"}
@@ -116,7 +118,7 @@ func c13ObjectProgram(s Src) (string, *C13Expect) {
 	n := s.Int("nstmts", 2, 8)
 	terminal := false
 	for i := 0; i < n && !terminal; i++ {
-		switch s.Int("stmt", 0, 9) {
+		switch s.Int("stmt", 0, 10) {
 		case 0, 1: // literal whose initialisers print tags
 			keys := drawKeys(s.Int("nk", 2, 6))
 			var parts []string
@@ -168,6 +170,13 @@ func c13ObjectProgram(s Src) (string, *C13Expect) {
 			k := drawKeys(4)
 			ls = append(ls, fmt.Sprintf("%s ({%s: 1, %s: 2, %s: 3, %s: 4}).nothere;", KwPrint, k[0], k[1], k[2], k[3]))
 			terminal = true
+		case 10: // a built-in applied to an object with awkward values (0, -0, NaN): result or error, but the same every time
+			k := drawKeys(4)
+			fn := Pick(s, "bfn", []string{FnMin, FnMax, FnLen, FnAbs, FnRound, FnKeys, FnValues, FnSqrt})
+			ls = append(ls, fmt.Sprintf("%s %s({%s: 0, %s: -0, %s: %s(-4), %s: 5});", KwPrint, fn, k[0], k[1], k[2], FnSqrt, k[3]))
+			if fn != FnKeys && fn != FnValues {
+				terminal = true // an error today
+			}
 		case 9: // write then list
 			if nobj == 0 {
 				continue
@@ -266,6 +275,7 @@ func c13ChurnCase(s Src) *Case {
 			t += s.Int("gcgap", 2000, 60000)
 			c.GCTicks = append(c.GCTicks, t)
 		}
+		c.HeapBias = []uint64{64 << 20, 1100 << 20, 5 << 30}[i]
 		cs.Runs = append(cs.Runs, Run{Role: fmt.Sprintf("fresh-process:gc%d", i), Cfg: c})
 	}
 	return cs
@@ -361,7 +371,23 @@ func c13Random(s Src, tier string) *Case {
 		n = 16
 	}
 	fresh := Chance(s, "fresh", 1, 40)
-	switch s.Int("family", 0, 14) {
+	switch s.Int("family", 0, 16) {
+	case 15, 16:
+		// several front-end errors of different kinds on different lines: the first diagnostic must be stable
+		k := s.Int("nerr", 2, 4)
+		var ls []string
+		for i := 0; i < k; i++ {
+			ls = append(ls, fmt.Sprintf("%s \"ok%d\";", KwPrint, i))
+			e := c19Errors[s.Int("errkind", 0, 21)]
+			if !e.last || i == k-1 {
+				ls = append(ls, e.text)
+			}
+			for j := s.Int("pad", 0, 30); j > 0; j-- {
+				ls = append(ls, fmt.Sprintf("%s v%d_%d = %d;", KwVar, i, j, j))
+			}
+		}
+		prog := strings.Join(ls, "\n") + "\n"
+		return c13Case(s, "frontend-errors", prog, "", &C13Expect{Source: "frontend-errors"}, n, fresh)
 	case 13, 14:
 		// an interactive session (same bytes on stdin, same delivery) under different schedules
 		k := s.Int("nlines", 2, 8)
